@@ -229,6 +229,12 @@ impl<'a> Gen<'a> {
     }
 
     pub fn any(&mut self, depth: u32) -> Expr {
+        if depth > 0 && self.knobs.observable > 0 && self.r.chance(1, 60) {
+            // a call to a function that exists nowhere: its arguments are still evaluated, in order, first
+            let n = 1 + self.r.usize(2);
+            let args = (0..n).map(|_| self.any(depth - 1)).collect();
+            return Expr::Call("nobody_at_all".into(), args);
+        }
         if self.knobs.assignments && !self.assign_names.is_empty() && self.r.chance(1, 12) {
             // an assignment used as an expression: it binds and yields None
             let names: Vec<String> = self.assign_names.clone();
